@@ -271,6 +271,33 @@ let run_psound payload =
     L (A (match r with Some _ -> "keep" | None -> "drop") :: outs)
   | _ -> failwith "psound payload"
 
+(* ---- batch: <store> <req> (vars (name v...)...) (policies ...) (mode none|failat k|cancelat k) ---- *)
+let run_batch payload =
+  match payload with
+  | [store; req; L (A "vars" :: vars); L (A "policies" :: ps); L (A "mode" :: mode)] ->
+    let en = env_of_sx store req in
+    let vars = List.map (function L (A n :: vs) -> (str_of_atom n, List.map value_of_sx vs) | _ -> failwith "bad var") vars in
+    let vars = List.stable_sort (fun (_, a) (_, b) -> compare (List.length a) (List.length b)) vars in
+    let pols = List.map (fun p -> let (id, pol) = policy_of_sx p in (str_of_atom id, pol)) ps in
+    let (cancel, budget) = (match mode with
+        | [A "none"] -> (false, None)
+        | [A "failat"; A k] -> (false, Some (nat_of_int (int_of_string k)))
+        | [A "cancelat"; A k] -> (true, Some (nat_of_int (int_of_string k)))
+        | _ -> failwith "bad mode") in
+    let (rs, st) = batch_authorize cancel vars en pols budget in
+    let sx_of_r r =
+      let (((p, a), rr), c) = r.br_request in
+      let vals = List.sort compare (List.map (fun (k, v) -> (atom_of_str k, v)) r.br_values) in
+      L [A "r"; L [A "req"; sx_of_value p; sx_of_value a; sx_of_value rr; sx_of_value c];
+         L (A "vals" :: List.map (fun (k, v) -> L [A k; sx_of_value v]) vals);
+         A (match r.br_decision with Allow -> "allow" | Deny -> "deny");
+         L (A "reasons" :: List.sort compare (List.map (fun k -> A (atom_of_str k)) r.br_reasons))] in
+    L [L [A "status"; A (match st with BOk -> "ok" | BUnbound -> "unbound" | BUnused -> "unused" | BInvalidPart -> "invalid"
+                                   | BCallbackFailed -> "callback" | BCancelled -> "cancelled")];
+       L [A "calls"; A (string_of_int (List.length rs))];
+       L (A "results" :: List.map sx_of_r rs)]
+  | _ -> failwith "batch payload"
+
 (* ---- pshist: (ops op...) ---- *)
 let pool_eff h = match int_of_cz h with 1 | 3 -> Forbid | _ -> Permit
 let pool_ev h = match int_of_cz h with 0 | 1 | 4 -> OTrue | 2 -> OFalse | _ -> OErr
@@ -310,5 +337,6 @@ let run_case kind payload =
   | "fold" -> run_fold payload
   | "partial" -> run_partial payload
   | "psound" -> run_psound payload
+  | "batch" -> run_batch payload
   | "foldexpr" -> run_foldexpr payload
   | k -> L [A "unsupported"; A k]
